@@ -388,6 +388,23 @@ def _inline_site(node):
     return kind, lhs, call, f
 
 
+def inlined_helpers(ctx, facts):
+    """names of the transparent helpers whose (only) call site has a form
+    that sym_paths splices in: their body is analysed in the caller's
+    context, with the caller's knowledge about the arguments"""
+    from .ccfg import get_ccfg
+    set_inline_context(ctx, facts)
+    out = set()
+    for f in facts.defined_functions():
+        g = get_ccfg(ctx, facts, f)
+        for node in g.nodes:
+            if node.kind in ("stmt", "return"):
+                site = _inline_site(node)
+                if site is not None:
+                    out.add(site[3])
+    return out
+
+
 def sym_paths(g, start=None, seed=None, stops=None, max_paths=60000,
               name=""):
     """Enumerate symbolic paths.  ``stops``: node id -> tag ends a path."""
